@@ -555,6 +555,8 @@ def oracle_sign_tx(op):
                 try:
                     got = sorted((pp[0], pp[1]) for pp, _sg, _t in o.net.who_signed.public_pairs_signed(tx, i))
                     n_addr = len(o.net.who_signed.who_signed_tx(tx, i))
+                except ImportError:
+                    got, n_addr = None, None      # Groestlcoin addresses need the optional groestlcoin_hash package (absent here)
                 except Exception as e:  # noqa: BLE001
                     problems.append("pass %d: who_signed raised %s on input %d" % (k, type(e).__name__, i))
                     got, n_addr = None, None
@@ -1196,6 +1198,19 @@ def gen(ctx, emit):
             k = rng.randint(1, 3)
             passes = [sh[i::k] for i in range(k)]
         emit(scenario_op(ctx, sc, rng.choice(["dict", "dict", "wif"]), ht=ht, subset=subset, passes=passes))
+
+    # --- Groestlcoin (its own Tx class and Solver: single-SHA256 digests on the legacy and the witness path), keys supplied as
+    # a lookup table (WIF text needs the optional groestlcoin_hash package, which is absent here)
+    for _ in range(ctx.n(8, 150)):
+        sc = Scenario(ctx, "grs", pool)
+        for kind in rng.sample(KINDS, rng.randint(2, 4)):
+            wit = kind in ("p2wpkh", "p2sh-p2wpkh", "p2wsh-ms", "p2sh-p2wsh-ms")
+            if kind.endswith("ms"):
+                n = rng.randint(1, 3)
+                sc.add(kind, fresh(n), rng.randint(1, n), compressed=True if wit else rng.random() < 0.7)
+            else:
+                sc.add(kind, fresh(1), compressed=True if wit else rng.random() < 0.7)
+        emit(scenario_op(ctx, sc, "dict", ht=rng.choice([None, 1, 3, 0x81])))
 
     # --- who_signed on the transactions the signing ops leave (unsigned, partially signed with placeholders, complete)
     for op in rng.sample(sign_ops, min(len(sign_ops), ctx.n(70, 900))):
